@@ -620,6 +620,13 @@ fn expk(sp: Span) -> String {
     }
     let mut last = None;
     for e in sp.macro_backtrace() {
+        // code of a `debug_assert!` is debug-only wherever the macro is written, also inside a local macro_rules! expansion
+        if let rustc_span::ExpnKind::Macro(rustc_span::MacroKind::Bang, name) = e.kind {
+            let local = matches!(e.macro_def_id, Some(d) if d.is_local());
+            if !local && name.as_str().starts_with("debug_assert") {
+                return format!("bang:{}:ext", name);
+            }
+        }
         last = Some(e);
     }
     let e = match last {
